@@ -659,7 +659,7 @@ fn deep_and_cyclic(ctx: &Ctx) {
             for (la, lb, ta, tb) in [("0", "\"s\"", "int", "string"), ("\"s\"", "0", "string", "int"), ("null", "[]", "null", "list"), ("{}", "true", "object", "bool")] {
                 let src = format!("{helpers}a := {mkf}({n}, {la}, -1)\nd := {mkf}({n}, {lb}, -1)\nprint(\"before\")\nprint(a == d)\n");
                 let mut e = Expect::err(b"before\n".to_vec());
-                e.diag = vec![DiagPred::MsgContains(vec!["'=='".into(), format!("'{ta}'"), format!("'{tb}'")])];
+                e.diag = vec![DiagPred::MsgContains(vec!["==".into(), ta.to_string(), tb.to_string()])];
                 ctx.label("deep chain");
                 cases.push((Case{property: "C10".into(), kind: "deep".into(), srcs: vec![src.into_bytes()], pred: Pred::Expect(e), note: format!("{shape}, {n} deep, leaves of type {ta} and {tb}")}, true));
             }
@@ -697,7 +697,7 @@ fn deep_and_cyclic(ctx: &Ctx) {
             let (a, b, t1, t2) = if flip { (r, l, tb, ta) } else { (l, r, ta, tb) };
             let src = format!("{setup}print(\"before\")\nprint({a} == {b})\n");
             let mut e = Expect::err(b"before\n".to_vec());
-            e.diag = vec![DiagPred::MsgContains(vec!["'=='".into(), format!("'{t1}'"), format!("'{t2}'")])];
+            e.diag = vec![DiagPred::MsgContains(vec!["==".into(), t1.to_string(), t2.to_string()])];
             ctx.label("self-containing operand against a finite one");
             cases.push((Case{property: "C10".into(), kind: "cyclic_vs_finite".into(), srcs: vec![src.into_bytes()], pred: Pred::Expect(e), note: format!("{a} == {b}: the finite operand ends in a scalar")}, true));
         }
@@ -714,6 +714,6 @@ pub fn run(ctx: &Ctx) {
     ctx.mark_exhaustive(&format!("all ordered pairs of the {}-value pool x 4 operators", pool.entries.len()));
     mutation_histories(ctx);
     deep_and_cyclic(ctx);
-    triples_check(ctx, &pool, ctx.n(20_000, 200_000) as usize);
-    random_check(ctx, ctx.n(3_000, 300_000));
+    triples_check(ctx, &pool, ctx.n(20_000, 1_000_000) as usize);
+    random_check(ctx, ctx.n(3_000, 2_000_000));
 }
